@@ -398,6 +398,12 @@ func (p *Prog) Method() string {
 	if p.RetErr {
 		res = "(" + res + ", error)"
 	}
+	if p.Style == "retie" {
+		if p.RetErr {
+			return fmt.Sprintf("X%s(e *S%s, n int) (i *D%s, err error)", p.Name, p.Name, p.Name)
+		}
+		return fmt.Sprintf("X%s(e *S%s, n int) (i *D%s)", p.Name, p.Name, p.Name)
+	}
 	if p.Style == "argrev" {
 		// additional arguments are illegal together with :reverse
 		return fmt.Sprintf("X%s(*S%s) %s", p.Name, p.Name, res)
